@@ -61,6 +61,24 @@ def program(family, d):
         return f"local f(n) = 1 + f(n); f({d})"
     if family == "inf_obj":
         return f"local o = {{ f(n):: self.f(n + 1) }}; o.f({d})"
+    if family == "pluschain":
+        return "(" + " + ".join(["{x: 0}"] + ["{x+: 1}"] * d) + ").x"
+    if family == "plusfold":
+        return f"std.foldl(function(acc, i) acc + {{ x+: 1 }}, std.range(1, {d}), {{ x: 0 }}).x"
+    if family == "nest1_eq":
+        return f"local n = {nest_arr}; n == n"
+    if family == "nestobj_str":
+        return f"std.length(std.toString({nest_obj}))"
+    if family == "cyc_eq":
+        return "local a = [a]; a == a"
+    if family == "cyc_lt":
+        return "local a = [a]; a < a"
+    if family == "cyc_str":
+        return "local a = [a]; std.toString(a)"
+    if family == "cyc_man":
+        return "local a = {x: a}; a"
+    if family == "cyc_objeq":
+        return "local a = {x: a}; a == a"
     if family == "cyc_local":
         return "local x = x; x"
     if family == "cyc_field":
@@ -112,7 +130,7 @@ def sweep_part(chk, tier, seed):
     deep = []
     for fam in sorted({c["family"] for c in cells}):
         kind = next(c["kind"] for c in cells if c["family"] == fam)
-        if kind == "finite" and fam not in ("selfchain", "localchain", "superchain"):
+        if kind == "finite" and fam not in ("selfchain", "localchain", "superchain", "pluschain"):
             for d, s in ((5000, 500), (5000, 1000000)) + (((30000, 1000000),) if tier == "thorough" else ()):
                 deep.append({"family": fam, "kind": kind, "d": d, "s": s})
         elif kind != "finite":
